@@ -304,11 +304,29 @@ func mainCheck(args []string) int {
 		obls = append(obls, oblReport{o.Name, o.Kind, o.Desc, o.Result, o.Solver, 0})
 	}
 	// report
+	isKnownObl := func(o *Obl) bool {
+		for _, k := range known {
+			if !k.Fixed && k.Prop == *prop && (k.Obligation == o.Name || (k.Clause != "" && strings.HasPrefix(o.Name, k.Obligation) && strings.Contains(o.Desc, k.Clause))) {
+				return true
+			}
+		}
+		return false
+	}
+	knownByFn := map[string]int{}
+	for _, o := range failed {
+		if isKnownObl(o) {
+			if i := strings.Index(o.Name, "#"); i > 0 {
+				knownByFn[o.Name[:i]]++
+			}
+		}
+	}
 	sort.Slice(reports, func(i, j int) bool { return reports[i].Key < reports[j].Key })
 	for _, r := range reports {
 		status := "ok"
 		if r.Error != "" {
 			status = "ERROR " + r.Error
+		} else if r.Discharged+knownByFn[r.Key] == r.Obligations && knownByFn[r.Key] > 0 {
+			status = fmt.Sprintf("ok + %d known finding(s)", knownByFn[r.Key])
 		} else if r.Discharged != r.Obligations {
 			status = "FAILED"
 		}
